@@ -42,6 +42,7 @@ func run(c *hc.Ctx) {
 	for _, pa := range fixedParas() {
 		runCase(c, pa)
 	}
+	bpCases(c, c.N/4+50)
 }
 
 // ---------------------------------------------------------------------------------------------
